@@ -371,11 +371,22 @@ func checkC07(c *lexCase, def lexer.Definition, r *vstat.Run) outcome {
 				return
 			}
 		}
+		// the lexer that has finished stays finished whatever its definition is used for next: other lexers of the
+		// definition are opened on other texts and advanced between the extra calls
+		var others []lexer.Lexer
 		for i := 0; i < c.ExtraNext; i++ {
+			if i%2 == 0 {
+				if ol, oerr := def.Lex("other", strings.NewReader("a1 ("+c.Input)); oerr == nil {
+					others = append(others, ol)
+				}
+			}
+			for _, ol := range others {
+				_, _ = ol.Next()
+			}
 			tk, err := l.Next()
 			if sawEOF {
 				if err != nil || !tk.EOF() || tk.Pos != eofPos {
-					out = violationf("eof-not-sticky", "call %d after EOF returned (%#v, %v), want EOF at %v\n%s", i+1, tk, err, eofPos, desc())
+					out = violationf("eof-not-sticky", "call %d after EOF returned (%#v, %v), want EOF at %v (other lexers of the definition were opened and advanced in between)\n%s", i+1, tk, err, eofPos, desc())
 					return
 				}
 			}
